@@ -233,7 +233,10 @@ def post_prefix(a, b):
                           ('list-str/list', [ref_canonical_comp_uri(t, v) for t, v in a], cb),
                           ('list/list-mixed', ca, [ref_canonical_comp_uri(t, v) if i % 2 else ref_comp(t, v)
                                                    for i, (t, v) in enumerate(b)]),
-                          ('tuple-str/str', tuple(ref_canonical_comp_uri(t, v) for t, v in a), ref_canonical_uri(b))):
+                          ('tuple-str/str', tuple(ref_canonical_comp_uri(t, v) for t, v in a), ref_canonical_uri(b)),
+                          # both names in wire form (bytes / bytearray / memoryview)
+                          ('wire/wire', ref_wire(a), ref_wire(b)),
+                          ('bytearray/memoryview', bytearray(ref_wire(a)), memoryview(ref_wire(b)))):
         r = _call(N.is_prefix, fa, fb)
         if r != ('ok', exp):
             bad.append(('C09:is_prefix', f'is_prefix[{fname}]({ref_canonical_uri(a)}, {ref_canonical_uri(b)}) -> {r}, '
@@ -465,6 +468,18 @@ def run(tier='quick', seed=0, shard=(0, 1)):
             if shard_of(idx, shard):
                 report(post_prefix(a, b), {'kind': 'prefix', 'a': name_inp(a)['name'], 'b': name_inp(b)['name']})
                 col.case(bool(a or b), 'pfx', repr(a), repr(b))
+            idx += 1
+    # 5b. prefix pairs whose encoded sizes lie on different sides of a Length boundary (252 | 253, 65535 | 65536)
+    big = []
+    for extra in (0, 1, 240, 246, 247, 248, 249, 250, 251, 252, 253, 254, 300):
+        big.append([(8, b'a')] + ([(8, b'x' * extra)] if extra else []))
+        big.append([(8, b'a'), (8, b'b')] + ([(8, b'y' * extra)] if extra else []))
+    big += [[(8, b'a'), (8, b'z' * 65529)], [(8, b'a'), (8, b'z' * 65530)], [(8, b'a'), (8, b'z' * 65540)], [(8, b'a')], []]
+    for a in big:
+        for b in big:
+            if len(a) <= 3 and shard_of(idx, shard):
+                report(post_prefix(a, b), {'kind': 'prefix', 'a': name_inp(a)['name'], 'b': name_inp(b)['name']})
+                col.case(True, 'pfx-big', len(ref_wire(a)), len(ref_wire(b)))
             idx += 1
     # 6. random names <= 8 components (+ prefix pairs derived from them)
     n_rand = 16000 if tier == 'quick' else 600000
